@@ -479,6 +479,17 @@ fn gen_ops(r: &mut Rng, ncoll: u64, len: usize, dist: &mut Dist) -> (u64, Vec<Op
                 kvs[0].1 = gen_vec(r, main_dim, dist);
                 kvs[at].1 = gen_vec(r, main_dim + 1, dist);
                 dist.hit("op.batch_store.rejected_in_the_middle");
+                if r.chance(2, 3) {
+                    // with an index cached before the batch and index-eligible searches after it
+                    ops.push(Op::Build(0));
+                    ops.push(Op::BatchStore(kvs));
+                    let q = gen_vec(r, main_dim, dist);
+                    ops.push(Op::Search(0, q.clone(), 10));
+                    ops.push(Op::Search(0, q, 1));
+                    dist.hit("op.batch_store.rejected_after_build");
+                    dist.hit("op.batch_store");
+                    continue;
+                }
             }
             ops.push(Op::BatchStore(kvs));
             dist.hit("op.batch_store");
